@@ -1055,7 +1055,7 @@ impl Prop for C08 {
             prop::bool::weighted(0.3),
             prop::bool::weighted(0.03),
             prop_oneof![9 => Just(None), 1 => (1u8..4, 24u8..32).prop_map(Some)],
-            (prop_oneof![3 => Just(0u8), 1 => Just(1u8), 1 => Just(2u8)], prop_oneof![5 => Just(0u8), 2 => 1u8..7], prop_oneof![7 => Just(None), 2 => wire_strat().prop_map(Some)], prop::bool::weighted(0.4), prop_oneof![19 => Just(None), 1 => (0u8..3, 0u8..4, 0u8..3).prop_map(Some)], any::<bool>()),
+            (prop_oneof![3 => Just(0u8), 1 => Just(1u8), 1 => Just(2u8)], prop_oneof![5 => Just(0u8), 2 => 1u8..13], prop_oneof![7 => Just(None), 2 => wire_strat().prop_map(Some)], prop::bool::weighted(0.4), prop_oneof![19 => Just(None), 1 => (0u8..3, 0u8..4, 0u8..3).prop_map(Some)], any::<bool>()),
         )
             .prop_map(|(version, inputs, outputs, chans, fee, fee_velocity_sat, max_feerate, repeats, via_approver, big_tx, storm, (restart_before, allow_edit, wire, onchain, startup, approving))| {
                 // a storm is only interesting with a finite fee velocity limit
@@ -1106,7 +1106,7 @@ impl Prop for C08 {
         if case.allow_edit != 0 {
             let absent = Address::p2wpkh(&CompressedPublicKey(PublicKey::from_secret_key(&secp, &SecretKey::from_slice(&[0x3c; 32]).unwrap())), net);
             allowlisted_now = crate::world::allowlist_edit(&mut w, &format!("address:{}", allow_addr), &format!("address:{}", absent), case.allow_edit);
-            st.class(format!("allowlist_edit:{}", case.allow_edit % 7));
+            st.class(format!("allowlist_edit:{}", crate::world::allowlist_edit_label(case.allow_edit)));
         }
         let foreign = |i: u8| Address::p2wpkh(&CompressedPublicKey(PublicKey::from_secret_key(&secp, &SecretKey::from_slice(&[40 + i; 32]).unwrap())), net).script_pubkey();
 
